@@ -120,6 +120,26 @@ fn prepare(state: &str) -> (Melda, Melda) {
                 }
             }
         }
+        "blocked-chain" => {
+            // a chain of three further blocks arrives WITHOUT its packs and is refreshed (every new block is held
+            // back); then the packs arrive: the next refresh must release the whole chain
+            for (i, d) in [json!({"l♭":[x(), y(), z()]}), json!({"l♭":[y(), z()]}), json!({"l♭":[x2(), y(), z()], "s":"t"})].into_iter().enumerate() {
+                a.update(obj(d)).unwrap();
+                a.commit(Some(obj(json!({"n": i})))).unwrap();
+            }
+            let (aa, ba) = (a.get_adapter(), b.get_adapter());
+            let copy = |ext: &str| {
+                let names = aa.read().unwrap().list_objects(ext).unwrap();
+                for n in names {
+                    let key = format!("{}{}", n, ext);
+                    let bytes = aa.read().unwrap().read_object(&key, 0, 0).unwrap();
+                    ba.read().unwrap().write_object(&key, &bytes).unwrap();
+                }
+            };
+            copy(".delta");
+            b.refresh().unwrap();
+            copy(".pack");
+        }
         "dropped-array" => {
             a.update(obj(json!({"s":"a"}))).unwrap();
             a.commit(None).unwrap();
@@ -190,6 +210,7 @@ pub fn body_list(thorough: bool) -> Vec<(&'static str, &'static str)> {
         ("multi-array-behind", "read"),
         ("multi-array-behind", "update"),
         ("multi-array-front", "read"),
+        ("blocked-chain", "refresh"),
     ];
     if thorough {
         v.extend(vec![
@@ -210,6 +231,8 @@ pub fn body_list(thorough: bool) -> Vec<(&'static str, &'static str)> {
             ("array-conflict-pending", "reload"),
             ("dropped-array", "update"),
             ("dropped-array", "commit"),
+            ("blocked-chain", "reload"),
+            ("blocked-chain", "meld"),
         ]);
     }
     v
